@@ -425,4 +425,390 @@ theorem sdm_reports_min {fl sq : K → K} (hf : IsFloor fl) (c : Consts K) (hh :
       · linarith [hdom.2.2]
 
 
+/-! ### molecule numbers -/
+
+/-- connected in the bond graph (`covalent` items, either direction) -/
+inductive Conn (items : List Bond) : Nat → Nat → Prop
+  | refl (i : Nat) : Conn items i i
+  | bond (b : Bond) (hb : b ∈ items) (hc : b.covalent = true) : Conn items b.a1 b.a2
+  | symm {i j : Nat} : Conn items i j → Conn items j i
+  | trans {i j k : Nat} : Conn items i j → Conn items j k → Conn items i k
+
+/-- no covalent item joins a numbered and an unnumbered atom -/
+def Closed (items : List Bond) (m : Nat → Int) : Prop :=
+  ∀ b ∈ items, b.covalent = true → ¬ (m b.a1 * m b.a2 < 0)
+
+/-- the loop invariant of `calc_molindex` -/
+structure Inv (items : List Bond) (mx : Int) (m : Nat → Int) : Prop where
+  mxpos : 0 < mx
+  zero : 0 < m 0
+  range : ∀ i, m i < 0 ∨ (1 ≤ m i ∧ m i ≤ mx)
+  closedOld : ∀ b ∈ items, b.covalent = true →
+    (0 < m b.a1 → m b.a1 < mx → 0 < m b.a2) ∧ (0 < m b.a2 → m b.a2 < mx → 0 < m b.a1)
+  same : ∀ b ∈ items, b.covalent = true → 0 < m b.a1 → 0 < m b.a2 → m b.a1 = m b.a2
+  conn : ∀ i j, 0 < m i → m i = m j → Conn items i j
+
+theorem upd_same (m : Nat → Int) (i : Nat) (v : Int) : upd m i v i = v := by simp [upd]
+theorem upd_other (m : Nat → Int) (i k : Nat) (v : Int) (h : k ≠ i) : upd m i v k = m k := by simp [upd, h]
+
+/-- numbering one more atom `b'` of the molecule under construction, next to an atom `a` that has the number -/
+theorem inv_assign {items : List Bond} {mx : Int} {m : Nat → Int} (hi : Inv items mx m) (a b' : Nat)
+    (ha : m a = mx) (hb : m b' < 0) (hc : Conn items a b') : Inv items mx (upd m b' mx) := by
+  have hmx := hi.mxpos
+  have val : ∀ k, (k = b' ∧ upd m b' mx k = mx) ∨ (k ≠ b' ∧ upd m b' mx k = m k) := by
+    intro k
+    by_cases h : k = b'
+    · left; exact ⟨h, by rw [h]; exact upd_same _ _ _⟩
+    · right; exact ⟨h, upd_other _ _ _ _ h⟩
+  refine ⟨hmx, ?_, ?_, ?_, ?_, ?_⟩
+  · rcases val 0 with ⟨_, e⟩ | ⟨_, e⟩ <;> rw [e]
+    · exact hmx
+    · exact hi.zero
+  · intro i
+    rcases val i with ⟨_, e⟩ | ⟨_, e⟩ <;> rw [e]
+    · right; omega
+    · exact hi.range i
+  · intro b hbm hcov
+    obtain ⟨o1, o2⟩ := hi.closedOld b hbm hcov
+    constructor
+    · intro h1 h2
+      rcases val b.a1 with ⟨_, e⟩ | ⟨_, e⟩ <;> rw [e] at h1 h2
+      · omega
+      · have := o1 h1 h2
+        rcases val b.a2 with ⟨_, e2⟩ | ⟨_, e2⟩ <;> rw [e2]
+        · exact hmx
+        · exact this
+    · intro h1 h2
+      rcases val b.a2 with ⟨_, e⟩ | ⟨_, e⟩ <;> rw [e] at h1 h2
+      · omega
+      · have := o2 h1 h2
+        rcases val b.a1 with ⟨_, e2⟩ | ⟨_, e2⟩ <;> rw [e2]
+        · exact hmx
+        · exact this
+  · intro b hbm hcov h1 h2
+    obtain ⟨o1, o2⟩ := hi.closedOld b hbm hcov
+    have r1 := hi.range b.a1
+    have r2 := hi.range b.a2
+    rcases val b.a1 with ⟨k1, e1⟩ | ⟨k1, e1⟩ <;> rcases val b.a2 with ⟨k2, e2⟩ | ⟨k2, e2⟩ <;>
+      rw [e1] at h1 ⊢ <;> rw [e2] at h2 ⊢
+    · -- a1 = b' (was unnumbered), a2 numbered: a2 must carry mx
+      rw [k1] at o2
+      by_contra hne
+      have : m b.a2 < mx := by omega
+      have := o2 h2 this
+      omega
+    · rw [k2] at o1
+      by_contra hne
+      have : m b.a1 < mx := by omega
+      have := o1 h1 this
+      omega
+    · exact hi.same b hbm hcov h1 h2
+  · intro i j h1 h2
+    rcases val i with ⟨k1, e1⟩ | ⟨k1, e1⟩ <;> rcases val j with ⟨k2, e2⟩ | ⟨k2, e2⟩ <;>
+      rw [e1] at h1 h2 <;> rw [e2] at h2
+    · rw [k1, k2]; exact Conn.refl _
+    · rw [k1]
+      have : Conn items a j := hi.conn a j (by rw [ha]; exact hmx) (by rw [ha]; exact h2)
+      exact Conn.trans (Conn.symm hc) this
+    · rw [k2]
+      have : Conn items i a := hi.conn i a h1 (by rw [ha]; exact h2)
+      exact Conn.trans this hc
+    · exact hi.conn i j h1 h2
+
+theorem fires_iff (m : Nat → Int) (b : Bond) :
+    fires m b = true ↔ b.covalent = true ∧ m b.a1 * m b.a2 < 0 := by
+  simp [fires]
+
+/-- one firing of the sweep keeps the invariant -/
+theorem inv_fire {items : List Bond} {mx : Int} {m : Nat → Int} (hi : Inv items mx m) (b : Bond)
+    (hb : b ∈ items) (hf : fires m b = true) : Inv items mx (upd (upd m b.a1 mx) b.a2 mx) := by
+  obtain ⟨hcov, hneg⟩ := (fires_iff m b).mp hf
+  obtain ⟨o1, o2⟩ := hi.closedOld b hb hcov
+  have r1 := hi.range b.a1
+  have r2 := hi.range b.a2
+  have hsplit : (0 < m b.a1 ∧ m b.a2 < 0) ∨ (m b.a1 < 0 ∧ 0 < m b.a2) := by
+    rcases Int.mul_neg_iff.mp hneg with h | h
+    · left; exact h
+    · right; exact h
+  rcases hsplit with ⟨p, q⟩ | ⟨p, q⟩
+  · have e1 : m b.a1 = mx := by
+      by_contra hne
+      have : m b.a1 < mx := by omega
+      have := o1 p this
+      omega
+    have : upd (upd m b.a1 mx) b.a2 mx = upd m b.a2 mx := by
+      funext k
+      simp only [upd]
+      by_cases hk : k = b.a2
+      · simp [hk]
+      · by_cases hk1 : k = b.a1
+        · simp [hk1, e1]
+        · simp [hk, hk1]
+    rw [this]
+    exact inv_assign hi b.a1 b.a2 e1 q (Conn.bond b hb hcov)
+  · have e2 : m b.a2 = mx := by
+      by_contra hne
+      have : m b.a2 < mx := by omega
+      have := o2 q this
+      omega
+    have : upd (upd m b.a1 mx) b.a2 mx = upd m b.a1 mx := by
+      funext k
+      simp only [upd]
+      by_cases hk : k = b.a2
+      · by_cases hk1 : k = b.a1
+        · simp [hk1]
+        · rw [if_pos hk, if_neg hk1, hk, e2]
+      · simp [hk]
+    rw [this]
+    exact inv_assign hi b.a2 b.a1 e2 p (Conn.symm (Conn.bond b hb hcov))
+
+theorem molFold_inv {items : List Bond} {mx : Int} : ∀ (l : List Bond) (st : (Nat → Int) × Nat),
+    (∀ b ∈ l, b ∈ items) → Inv items mx st.1 → Inv items mx (l.foldl (molStep mx) st).1 := by
+  intro l
+  induction l with
+  | nil => intro st _ h; exact h
+  | cons b l ih =>
+    intro st hsub h
+    simp only [List.foldl_cons]
+    apply ih
+    · intro x hx; exact hsub x (List.mem_cons_of_mem _ hx)
+    · unfold molStep
+      by_cases hf : fires st.1 b = true
+      · rw [if_pos hf]; exact inv_fire h b (hsub b (List.mem_cons_self ..)) hf
+      · rw [if_neg hf]; exact h
+
+/-- the count only grows; if it did not grow, nothing fired and the labels are unchanged -/
+theorem molFold_count {mx : Int} : ∀ (l : List Bond) (st : (Nat → Int) × Nat),
+    st.2 ≤ (l.foldl (molStep mx) st).2 ∧
+    ((l.foldl (molStep mx) st).2 = st.2 → (l.foldl (molStep mx) st).1 = st.1 ∧ ∀ b ∈ l, fires st.1 b = false) := by
+  intro l
+  induction l with
+  | nil => intro st; simp
+  | cons b l ih =>
+    intro st
+    simp only [List.foldl_cons]
+    obtain ⟨g1, g2⟩ := ih (molStep mx st b)
+    by_cases hf : fires st.1 b = true
+    · have e : molStep mx st b = (upd (upd st.1 b.a1 mx) b.a2 mx, st.2 + 1) := by unfold molStep; rw [if_pos hf]
+      rw [e] at g1 g2 ⊢
+      simp only at g1 g2
+      exact ⟨by omega, fun h => by omega⟩
+    · have e : molStep mx st b = st := by unfold molStep; rw [if_neg hf]
+      rw [e] at g1 g2 ⊢
+      refine ⟨g1, fun h => ?_⟩
+      obtain ⟨a1, a2⟩ := g2 h
+      refine ⟨a1, ?_⟩
+      intro x hx
+      rcases List.mem_cons.mp hx with rfl | hx
+      · simpa using hf
+      · exact a2 x hx
+
+/-- `while someleft`: when it ends, the invariant holds and the numbering is closed under bonds -/
+theorem molInner_spec {items : List Bond} {mx : Int} : ∀ (f : Nat) (m m' : Nat → Int),
+    Inv items mx m → molInner mx items f m = some m' → Inv items mx m' ∧ Closed items m' := by
+  intro f
+  induction f with
+  | zero => intro m m' _ h; simp [molInner] at h
+  | succ f ih =>
+    intro m m' hi h
+    simp only [molInner] at h
+    have hinv : Inv items mx (molPass mx items m).1 := molFold_inv items (m, 0) (fun _ hb => hb) hi
+    by_cases hz : (molPass mx items m).2 = 0
+    · rw [if_pos hz] at h
+      have hm' : (molPass mx items m).1 = m' := by simpa using h
+      obtain ⟨_, g2⟩ := molFold_count (mx := mx) items (m, 0)
+      obtain ⟨e1, e2⟩ := g2 hz
+      have em : m' = m := by rw [← hm']; exact e1
+      refine ⟨by rw [← hm']; exact hinv, ?_⟩
+      intro b hb hcov hneg
+      have := e2 b hb
+      rw [em] at hneg
+      have hf : fires m b = true := (fires_iff m b).mpr ⟨hcov, hneg⟩
+      simp only at this
+      rw [hf] at this
+      exact Bool.noConfusion this
+    · rw [if_neg hz] at h
+      exact ih _ _ hinv h
+
+/-- starting the next molecule at an unnumbered atom -/
+theorem inv_seed {items : List Bond} {mx : Int} {m : Nat → Int} (hi : Inv items mx m) (hc : Closed items m)
+    (ni : Nat) (hn : m ni < 0) : Inv items (mx + 1) (upd m ni (mx + 1)) := by
+  have hmx := hi.mxpos
+  have val : ∀ k, (k = ni ∧ upd m ni (mx + 1) k = mx + 1) ∨ (k ≠ ni ∧ upd m ni (mx + 1) k = m k) := by
+    intro k
+    by_cases h : k = ni
+    · left; exact ⟨h, by rw [h]; exact upd_same _ _ _⟩
+    · right; exact ⟨h, upd_other _ _ _ _ h⟩
+  have posOf : ∀ b ∈ items, b.covalent = true → (0 < m b.a1 → 0 < m b.a2) ∧ (0 < m b.a2 → 0 < m b.a1) := by
+    intro b hb hcov
+    have h := hc b hb hcov
+    have r1 := hi.range b.a1
+    have r2 := hi.range b.a2
+    constructor
+    · intro p
+      rcases r2 with q | q
+      · exact absurd (Int.mul_neg_of_pos_of_neg p q) h
+      · omega
+    · intro p
+      rcases r1 with q | q
+      · exact absurd (Int.mul_neg_of_neg_of_pos q p) h
+      · omega
+  refine ⟨by omega, ?_, ?_, ?_, ?_, ?_⟩
+  · rcases val 0 with ⟨_, e⟩ | ⟨_, e⟩ <;> rw [e]
+    · omega
+    · exact hi.zero
+  · intro i
+    rcases val i with ⟨_, e⟩ | ⟨_, e⟩ <;> rw [e]
+    · right; omega
+    · rcases hi.range i with h | h
+      · left; exact h
+      · right; omega
+  · intro b hb hcov
+    obtain ⟨p1, p2⟩ := posOf b hb hcov
+    constructor
+    · intro h1 h2
+      rcases val b.a1 with ⟨_, e⟩ | ⟨_, e⟩ <;> rw [e] at h1 h2
+      · omega
+      · rcases val b.a2 with ⟨_, e2⟩ | ⟨_, e2⟩ <;> rw [e2]
+        · omega
+        · exact p1 h1
+    · intro h1 h2
+      rcases val b.a2 with ⟨_, e⟩ | ⟨_, e⟩ <;> rw [e] at h1 h2
+      · omega
+      · rcases val b.a1 with ⟨_, e2⟩ | ⟨_, e2⟩ <;> rw [e2]
+        · omega
+        · exact p2 h1
+  · intro b hb hcov h1 h2
+    obtain ⟨p1, p2⟩ := posOf b hb hcov
+    rcases val b.a1 with ⟨k1, e1⟩ | ⟨k1, e1⟩ <;> rcases val b.a2 with ⟨k2, e2⟩ | ⟨k2, e2⟩ <;>
+      rw [e1] at h1 ⊢ <;> rw [e2] at h2 ⊢
+    · have := p2 h2; rw [k1] at this; omega
+    · have := p1 h1; rw [k2] at this; omega
+    · exact hi.same b hb hcov h1 h2
+  · intro i j h1 h2
+    rcases val i with ⟨k1, e1⟩ | ⟨k1, e1⟩ <;> rcases val j with ⟨k2, e2⟩ | ⟨k2, e2⟩ <;>
+      rw [e1] at h1 h2 <;> rw [e2] at h2
+    · rw [k1, k2]; exact Conn.refl _
+    · have := hi.range j; omega
+    · have := hi.range i; omega
+    · exact hi.conn i j h1 h2
+
+theorem molOuter_spec {items : List Bond} (hyd : Nat → Bool) (n fi : Nat) : ∀ (f : Nat) (mx : Int) (m : Nat → Int)
+    (r : (Nat → Int) × Int), Inv items mx m → molOuter hyd n items fi f mx m = some r →
+    Inv items r.2 r.1 ∧ Closed items r.1 ∧ firstUnassigned hyd n r.1 = none := by
+  intro f
+  induction f with
+  | zero => intro mx m r _ h; simp [molOuter] at h
+  | succ f ih =>
+    intro mx m r hi h
+    simp only [molOuter] at h
+    cases hin : molInner mx items fi m with
+    | none => rw [hin] at h; simp at h
+    | some m1 =>
+      rw [hin] at h
+      dsimp only at h
+      obtain ⟨hinv, hcl⟩ := molInner_spec fi m m1 hi hin
+      cases hfu : firstUnassigned hyd n m1 with
+      | none =>
+        rw [hfu] at h
+        simp only [Option.some.injEq] at h
+        subst h
+        exact ⟨hinv, hcl, hfu⟩
+      | some ni =>
+        rw [hfu] at h
+        simp only at h
+        have hfound := List.find?_some hfu
+        simp only [Bool.and_eq_true, Bool.not_eq_true', decide_eq_true_eq] at hfound
+        by_cases h0 : ni = 0
+        · -- index 0 is never unnumbered: the branch that would end the loop early is dead
+          exfalso
+          rw [h0] at hfound
+          have := hinv.zero
+          omega
+        · rw [if_neg h0] at h
+          exact ih _ _ r (inv_seed hinv hcl ni hfound.2) h
+
+theorem inv_init (items : List Bond) : Inv items 1 (upd (fun _ => -1) 0 1) := by
+  have val : ∀ k, (k = 0 ∧ upd (fun _ => (-1 : Int)) 0 1 k = 1) ∨ (k ≠ 0 ∧ upd (fun _ => (-1 : Int)) 0 1 k = -1) := by
+    intro k
+    by_cases h : k = 0
+    · left; exact ⟨h, by rw [h]; exact upd_same _ _ _⟩
+    · right; exact ⟨h, upd_other _ _ _ _ h⟩
+  refine ⟨by omega, ?_, ?_, ?_, ?_, ?_⟩
+  · rcases val 0 with ⟨_, e⟩ | ⟨_, e⟩ <;> rw [e] <;> omega
+  · intro i; rcases val i with ⟨_, e⟩ | ⟨_, e⟩ <;> rw [e] <;> omega
+  · intro b _ _
+    constructor
+    · intro h1 h2; rcases val b.a1 with ⟨_, e⟩ | ⟨_, e⟩ <;> rw [e] at h1 h2 <;> omega
+    · intro h1 h2; rcases val b.a2 with ⟨_, e⟩ | ⟨_, e⟩ <;> rw [e] at h1 h2 <;> omega
+  · intro b _ _ h1 h2
+    rcases val b.a1 with ⟨_, e1⟩ | ⟨_, e1⟩ <;> rcases val b.a2 with ⟨_, e2⟩ | ⟨_, e2⟩ <;>
+      rw [e1] at h1 ⊢ <;> rw [e2] at h2 ⊢ <;> omega
+  · intro i j h1 h2
+    rcases val i with ⟨k1, e1⟩ | ⟨k1, e1⟩ <;> rcases val j with ⟨k2, e2⟩ | ⟨k2, e2⟩ <;>
+      rw [e1] at h1 h2 <;> rw [e2] at h2
+    · rw [k1, k2]; exact Conn.refl _
+    · omega
+    · omega
+    · omega
+
+/-- **molindex_components** (what is proved of `calc_molindex`, for every atom list and every item list — no
+    symmetry of the item list is assumed). If the fuelled loop returns labels `m`:
+    (1) every non-hydrogen atom is numbered (> 0);
+    (2) a covalent item with a numbered end has both ends numbered, with the same number;
+    (3) for a numbered atom `i`: `m i = m j` exactly when `i` and `j` are connected in the bond graph.
+    Not claimed (open finding, `molindex_fails_on_lone_hydrogens`): atoms of hydrogen-only components keep -1.
+    Fuel: `n + 1` sweeps/molecules; that it never runs out is observed by the harness on every case, not proved. -/
+theorem molindex_components (hyd : Nat → Bool) (n : Nat) (items : List Bond) (m : Nat → Int) (mx : Int)
+    (h : calcMolindex hyd n items = some (m, mx)) :
+    (∀ i, i < n → hyd i = false → 0 < m i) ∧
+    (∀ b ∈ items, b.covalent = true → (0 < m b.a1 ∨ 0 < m b.a2) → 0 < m b.a1 ∧ m b.a1 = m b.a2) ∧
+    (∀ i j, 0 < m i → (m i = m j ↔ Conn items i j)) := by
+  unfold calcMolindex at h
+  by_cases hn : n = 0
+  · rw [if_pos hn] at h; simp at h
+  rw [if_neg hn] at h
+  obtain ⟨hinv, hcl, hfu⟩ := molOuter_spec hyd n (n + 1) (n + 1) 1 _ (m, mx) (inv_init items) h
+  simp only at hinv hcl hfu
+  have bonded : ∀ b ∈ items, b.covalent = true → (0 < m b.a1 ∨ 0 < m b.a2) → 0 < m b.a1 ∧ m b.a1 = m b.a2 := by
+    intro b hb hcov hor
+    have hc := hcl b hb hcov
+    have r1 := hinv.range b.a1
+    have r2 := hinv.range b.a2
+    have both : 0 < m b.a1 ∧ 0 < m b.a2 := by
+      rcases hor with p | p
+      · rcases r2 with q | q
+        · exact absurd (Int.mul_neg_of_pos_of_neg p q) hc
+        · exact ⟨p, by omega⟩
+      · rcases r1 with q | q
+        · exact absurd (Int.mul_neg_of_neg_of_pos q p) hc
+        · exact ⟨by omega, p⟩
+    exact ⟨both.1, hinv.same b hb hcov both.1 both.2⟩
+  refine ⟨?_, bonded, ?_⟩
+  · intro i hi hh
+    have := List.find?_eq_none.mp hfu i (List.mem_range.mpr hi)
+    simp only [hh, Bool.not_false, Bool.true_and, decide_eq_true_eq, not_lt] at this
+    rcases hinv.range i with q | q <;> omega
+  · intro i j hpos
+    constructor
+    · intro e; exact hinv.conn i j hpos e
+    · intro hc
+      have key : ∀ a b, Conn items a b → (0 < m a → m a = m b) ∧ (0 < m b → m a = m b) := by
+        intro a b hab
+        induction hab with
+        | refl => exact ⟨fun _ => rfl, fun _ => rfl⟩
+        | bond b hb hcov =>
+          exact ⟨fun p => (bonded b hb hcov (Or.inl p)).2, fun p => (bonded b hb hcov (Or.inr p)).2⟩
+        | symm _ ih => exact ⟨fun p => (ih.2 p).symm, fun p => (ih.1 p).symm⟩
+        | trans _ _ ih1 ih2 =>
+          constructor
+          · intro p
+            have e1 := ih1.1 p
+            exact e1.trans (ih2.1 (by omega))
+          · intro p
+            have e2 := ih2.2 p
+            exact (ih1.2 (by omega)).trans e2
+      exact (key i j hc).1 hpos
+
+
 end Shelx.C13
